@@ -1,12 +1,12 @@
 (* C03 — the pipeline is the documented stage composition in the documented order.
    Only statements, closed by `exact`, each followed by its assumptions. *)
-From Jawk Require Import Base Json Ctx Printer Chain PipelineSpec OrderProofs SorterProofs ChainProofs.
+From Jawk Require Import Base Json Reader Ctx Printer Expr Chain PipelineSpec OrderProofs SorterProofs ChainProofs Go GoProofs.
 
 (* for every expression semantics `get`, every well-shaped pipeline and every input sequence, running the
    chain of stage processes (start/process/complete with Break) equals applying the documented stages as
    pure list transformations, in order *)
-Theorem C03_refines : forall (E : Type) (get : E -> ctx E -> option json) (sts : list (stage E)),
-  wfp E sts -> forall cs : list (ctx E),
+Theorem C03_refines : forall (E : Type) (get : E -> Ctx.ctx E -> option json) (sts : list (Chain.stage E)),
+  wfp E sts -> forall cs : list (Ctx.ctx E),
   run E get sts (map (init_state E) sts) cs = spec E get sts cs.
 Proof.
   intros E get.
@@ -15,18 +15,40 @@ Qed.
 Print Assumptions C03_refines.
 
 (* the specification composes stage by stage: the order of the list is the order of application *)
-Theorem C03_spec_compose : forall (E : Type) (get : E -> ctx E -> option json) (a b : list (stage E)) cs,
+Theorem C03_spec_compose : forall (E : Type) (get : E -> Ctx.ctx E -> option json) (a b : list (Chain.stage E)) cs,
   spec E get (a ++ b) cs = spec E get b (spec E get a cs).
 Proof. exact spec_app. Qed.
 Print Assumptions C03_spec_compose.
 
 (* an absent option adds no stage: the empty pipeline is the identity *)
-Theorem C03_absent_identity : forall (E : Type) (get : E -> ctx E -> option json) cs, spec E get [] cs = cs.
+Theorem C03_absent_identity : forall (E : Type) (get : E -> Ctx.ctx E -> option json) cs, spec E get [] cs = cs.
 Proof. reflexivity. Qed.
 Print Assumptions C03_absent_identity.
 
 (* the sorting capacity (an optimisation used with --take) is not part of the specification *)
-Theorem C03_caps_invisible : forall (E : Type) (get : E -> ctx E -> option json) sts cs,
+Theorem C03_caps_invisible : forall (E : Type) (get : E -> Ctx.ctx E -> option json) sts cs,
   spec E get (map (uncap E) sts) cs = spec E get sts cs.
 Proof. exact spec_uncap. Qed.
 Print Assumptions C03_caps_invisible.
+
+(* the whole program on one input under --on-error=ignore: the rows written are the rows of `run` over the
+   contexts of the parsed values, after the header; combined with C03_refines, they are the rows of the
+   documented composition *)
+Theorem C03_go : forall (cf : cfg) (fname : option str) (evs : list ev) (b : bool) p sts hdr,
+  c_on_error cf = OnIgnore -> Forall (fun e => e <> EErr) evs ->
+  build_pipeline cf = Some (p, sts) ->
+  start_output p (titles expr sts []) (c_rowsep cf) = Some hdr ->
+  wfp expr sts ->
+  let cs := fst (fst (ctxs_of_input cf fname evs)) in
+  g_result (go cf [(fname, evs)] b) = GOk /\
+  g_events (go cf [(fname, evs)] b) =
+    (match hdr with [] => [] | _ => [OOut hdr] end) ++
+    emit cf p (length (titles expr sts [])) (spec expr get sts cs).
+Proof.
+  intros cf fname evs b p sts hdr H1 H2 H3 H4 Hw cs.
+  destruct (go_run_ignore cf fname evs b p sts hdr H1 H2 H3 H4) as [R Ev]. split; [exact R|].
+  rewrite Ev. unfold cs.
+  rewrite (run_spec expr get (jcmp_refl show) (jcmp_antisym show) (jcmp_trans_le show) (jcmp_eq_l show) sts Hw).
+  reflexivity.
+Qed.
+Print Assumptions C03_go.
